@@ -25,16 +25,15 @@ ASSUMPTIONS = ["vlib.refsim state + dense Pauli algebra is the oracle",
                "sampled paths: |estimate - exact| <= 6*sqrt(sum c_i^2 (1-<P_i>^2)/n_shots), RNG seeded per case",
                "generic route is driven through a Backend subclass that delegates simulate_circuit to cirq"]
 ANCHORS = [
-    ("tangelo/linq/target/backend.py", "316-375", "path selection and real/imaginary split"),
-    ("tangelo/linq/target/backend.py", "456-508", "statevector route incl. Pauli-circuit overlap and sampled variant"),
-    ("tangelo/linq/target/backend.py", "510-556", "frequency route"),
-    ("tangelo/linq/target/backend.py", "46-110", "parity of masked bitstring"),
-    ("tangelo/linq/helpers/circuits/measurement_basis.py", "21-41", "measurement-basis rotations"),
-    ("tangelo/linq/target/target_cirq.py", "310-333", "cirq native expectation"),
-    ("tangelo/linq/target/backend.py", "377-454,558-604", "variance / standard error"),
+    ("tangelo/linq/target/backend.py", "get_expectation_value", "path selection and real/imaginary split"),
+    ("tangelo/linq/target/backend.py", "_get_expectation_value_from_statevector", "statevector route incl. Pauli-circuit overlap and sampled variant"),
+    ("tangelo/linq/target/backend.py", "_get_expectation_value_from_frequencies", "frequency route"),
+    ("tangelo/linq/target/backend.py", "get_expectation_value_from_frequencies_oneterm,get_variance_from_frequencies_oneterm", "parity of masked bitstring"),
+    ("tangelo/linq/helpers/circuits/measurement_basis.py", "measurement_basis_gates", "measurement-basis rotations"),
+    ("tangelo/linq/target/target_cirq.py", "expectation_value_from_prepared_state", "cirq native expectation"),
+    ("tangelo/linq/target/backend.py", "get_variance,get_standard_error,_get_variance_from_frequencies", "variance / standard error"),
 ]
-REQUIRED = {"cirq_native": 100, "cirq_freq_route_exact": 100, "generic_statevector_loop": 100, "generic_sampled": 20,
-            "cirq_sampled": 20, "variance_exact": 50, "std_error_sampled": 10, "desired_meas_result": 20, "sympy": 5}
+REQUIRED = {"cirq_native": 72, "cirq_freq_route_exact": 48, "generic_statevector_loop": 100, "generic_sampled": 8, "cirq_sampled": 16, "variance_exact": 50, "std_error_sampled": 10, "desired_meas_result": 20, "sympy": 3}
 BUDGET = {"quick": 240, "thorough": 2400}
 TOL = 1e-8
 
